@@ -65,11 +65,11 @@ Proof. mach_tie @src_next_d3. Qed.
 (* ---------------------------------------------------------------- computeRayNumberOfCells *)
 Lemma tie_ncells_2 (c : caster (T:=T)) e0 e1 o0 o1 : rc_eidx c = [e0; e1] -> rc_oidx c = [o0; o1] ->
   src_ncells_2 IdealInt e0 e1 o0 o1 = ncells c.
-Proof. intros He Ho. unfold src_ncells_2, ncells, eig_sumZ. rewrite He, Ho. reflexivity. Qed.
+Proof. intros He Ho. unfold src_ncells_2, ncells, eig_sumZ. rewrite He, Ho. cbn [cu64 ci32 IdealInt fold_left combine]. lia. Qed.
 
 Lemma tie_ncells_3 (c : caster (T:=T)) e0 e1 e2 o0 o1 o2 : rc_eidx c = [e0; e1; e2] -> rc_oidx c = [o0; o1; o2] ->
   src_ncells_3 IdealInt e0 e1 e2 o0 o1 o2 = ncells c.
-Proof. intros He Ho. unfold src_ncells_3, ncells, eig_sumZ. rewrite He, Ho. reflexivity. Qed.
+Proof. intros He Ho. unfold src_ncells_3, ncells, eig_sumZ. rewrite He, Ho. cbn [cu64 ci32 IdealInt fold_left combine]. lia. Qed.
 
 (* machine integers: the indexes are converted to int, subtracted, |.|, summed, + 1 in int, converted to size_t.  When the
    indexes fit int (C14_indexes_and_count_fit_int: they do, and so do the sum and its partial sums) nothing wraps. *)
